@@ -113,5 +113,8 @@ structure EvalTotal (api : EvalApi) : Prop where
   pureTotal : ∀ (e : Expr) (b : Bool), api.isTruthy e = some b → api.hasSideEffects e = false →
     ∀ {N : NumOps} (call : CallFn N) (ρ : ExtOracle N) (k : Nat) (env : Env N) (σ : State N),
       evalE call ρ k env e σ = .timeout ∨ ∃ vs, evalE call ρ k env e σ = .ok vs σ
+  single : ∀ (e : Expr), api.canReturnMultiple e = false →
+    ∀ {N : NumOps} (call : CallFn N) (ρ : ExtOracle N) (k : Nat) (env : Env N) (σ σ' : State N) (vs : List (Val N)),
+      evalE call ρ k env e σ = .ok vs σ' → vs = [first vs]
 
 end DarkluaModel.Rules
